@@ -432,6 +432,15 @@ pub fn write_synthetic_dirs(root: &str, tier: Tier) {
     std::fs::create_dir_all(&d).unwrap();
     let _ = std::fs::copy(format!("{}/gen01.ctehexml", src), format!("{}/only-kyg.ctehexml", d));
     let _ = std::fs::copy(format!("{}/KyGananciasSolares.txt", src), format!("{}/KyGananciasSolares.txt", d));
+    // result file that only speaks about the windows (no wall lines): the export then carries window overrides only
+    let d = format!("{}/kyg-windows-only", root);
+    std::fs::create_dir_all(&d).unwrap();
+    let _ = std::fs::copy(format!("{}/gen01.ctehexml", src), format!("{}/kyg-windows-only.ctehexml", d));
+    if let Ok(k) = std::fs::read(format!("{}/KyGananciasSolares.txt", src)) {
+        let text: String = k.iter().map(|b| *b as char).collect();
+        let kept: Vec<&str> = text.lines().filter(|l| !l.starts_with("Muro")).collect();
+        let _ = std::fs::write(format!("{}/KyGananciasSolares.txt", d), kept.join("\n").chars().map(|c| if (c as u32) < 256 { c as u32 as u8 } else { b'?' }).collect::<Vec<u8>>());
+    }
     let d = format!("{}/only-tbl", root);
     std::fs::create_dir_all(&d).unwrap();
     let _ = std::fs::copy(format!("{}/gen01.ctehexml", src), format!("{}/only-tbl.ctehexml", d));
